@@ -366,7 +366,36 @@ def _install_merge_pre():
     ap.BAMOnlineMerger.get = get
 
 
-PRE = {"merge": _install_merge_pre, "schedule": _install_schedule_pre, "ids": _install_ids_pre, "canon": _install_canon_pre,
+# ----------------------------------------------------------------------------- C19 contracts inside pipeline runs
+
+def _install_c19_pre():
+    import atexit
+    deps = os.path.join(os.path.dirname(os.path.dirname(os.path.abspath(__file__))), ".deps")
+    if deps not in sys.path:
+        sys.path.append(deps)
+    from vlib import contracts19 as C
+    C.install()
+
+    def dump():
+        emit("c19", counts=dict(C.COUNTS), violations=C.VIOLATIONS[:50])
+    atexit.register(dump)
+    # forked pool workers leave through os._exit: dump from the task wrappers as well
+    import src.dataset_processor as dp
+    for name in ("collect_reads_in_parallel", "construct_models_in_parallel"):
+        fn = getattr(dp, name)
+
+        def wrap(fn):
+            @functools.wraps(fn)
+            def w(*a, **kw):
+                try:
+                    return fn(*a, **kw)
+                finally:
+                    emit("c19", counts=dict(C.COUNTS), violations=C.VIOLATIONS[:50], partial=True)
+            return w
+        setattr(dp, name, wrap(fn))
+
+
+PRE = {"c19": _install_c19_pre, "merge": _install_merge_pre, "schedule": _install_schedule_pre, "ids": _install_ids_pre, "canon": _install_canon_pre,
        "counter": _install_counter_pre, "resolve": _install_resolve_pre, "state": _install_state_pre,
        "split": _install_split_pre}
 POST = {"crash": _install_crash, "cache": _install_cache}
